@@ -54,7 +54,7 @@ pub trait ShapesMut {
 
 pub struct Obj { pub id: i64, pub state: i64, pub buf: Vec<u8>, pub s: String, pub cell: u32 }
 impl Obj {
-    pub fn new(id: i64) -> Self { LIVE.fetch_add(1, SeqCst); Obj { id, state: id * 7 + 1, buf: vec![1, 2, 3, id as u8], s: format!("o{}é", id), cell: 40 + id as u32 } }
+    pub fn new(id: i64) -> Self { LIVE.fetch_add(1, SeqCst); Obj { id, state: id * 7 + 1, buf: vec![1, 2, 3, id as u8], s: format!("o{}é\0z", id), cell: 40 + id as u32 } }
 }
 impl Drop for Obj { fn drop(&mut self) { LIVE.fetch_sub(1, SeqCst); DROPS.with(|d| d.borrow_mut().push(-1000 - self.id)); } }
 
@@ -147,6 +147,29 @@ fn call_mut<T: ShapesMut>(t: &mut T, op: &[i64], scratch: &mut Scratch) -> Vec<i
     }
 }
 
+/// C04 at the level a C caller sees: a boxed single-trait object read as raw words through the documented layout
+/// {vtbl, container {instance {instance, drop_fn}, context {instance, clone_fn, drop_fn}, ret_tmp}}.
+fn layout_probe(mon: &mut Mon) {
+    use cglue::trait_group::{CGlueObjRef, GetContainer};
+    let arc = Arc::new(());
+    let obj = trait_obj!((Obj::new(1), CArc::<()>::from(arc.clone())) as ShapesRef);
+    let words = unsafe { std::slice::from_raw_parts(&obj as *const _ as *const usize, std::mem::size_of_val(&obj) / std::mem::size_of::<usize>()) };
+    let vt = obj.get_vtbl() as *const _ as usize;
+    let inst = obj.ccont_ref().cobj_ref().0 as *const _ as *const u8 as usize;
+    let ctx = Arc::as_ptr(&arc) as usize;
+    if words.len() < 6 { mon.fail(format!("a boxed object with an arc context is {} words (expected at least vtbl + box + arc = 6)", words.len())); }
+    else {
+        if words[0] != vt { mon.fail("word 0 of a single-trait object is not its vtable pointer (published layout: {vtbl, container})".to_string()); }
+        if words[1] != inst { mon.fail("word 1 of a boxed single-trait object is not the instance pointer (published layout: container = {instance, context, ret_tmp}, CBox = {instance, drop_fn})".to_string()); }
+        if words[3] != ctx { mon.fail("word 3 of a boxed single-trait object with an arc context is not the context's instance pointer (container = {instance, context, ret_tmp})".to_string()); }
+    }
+    let plain = trait_obj!(Obj::new(1) as ShapesRef);
+    let w = unsafe { std::slice::from_raw_parts(&plain as *const _ as *const usize, std::mem::size_of_val(&plain) / std::mem::size_of::<usize>()) };
+    if w.len() != 3 || w[0] != plain.get_vtbl() as *const _ as usize { mon.fail(format!("a boxed object without context is {} words with the vtable pointer {} word 0 (expected 3 words: vtbl, instance, drop_fn)", w.len(), if w.first() == Some(&(plain.get_vtbl() as *const _ as usize)) { "in" } else { "NOT in" })); }
+    drop(plain); drop(obj);
+    let _ = take_log(); let _ = take_drops();
+}
+
 thread_local! { static EXPECT: RefCell<Vec<String>> = RefCell::new(Vec::new()); }
 /// an absolute expectation of the caller (independent of the direct-vs-opaque comparison) failed
 fn expect_fail(s: String) { let d = crate::alloc::domain(0); EXPECT.with(|e| e.borrow_mut().push(s)); crate::alloc::domain(d); }
@@ -155,7 +178,7 @@ fn expect_fail(s: String) { let d = crate::alloc::domain(0); EXPECT.with(|e| e.b
 fn rel_last(base: i64, nonnull_only: bool) { LOG.with(|l| { if let Some(e) = l.borrow_mut().last_mut() { if e.len() > 2 && !(nonnull_only && e[2] == 0) { e[2] -= base; } } }); }
 
 pub struct Scratch { bytes: Vec<u8>, words: Vec<u64>, strings: Vec<String> }
-impl Scratch { fn new() -> Self { Scratch { bytes: (0..24u8).collect(), words: (0..9u64).map(|i| i * i + 1).collect(), strings: vec!["".into(), "a".into(), "héllo".into(), "€😀".into(), "plain ascii text".into()] } } }
+impl Scratch { fn new() -> Self { Scratch { bytes: (0..24u8).collect(), words: (0..9u64).map(|i| i * i + 1).collect(), strings: vec!["".into(), "a".into(), "héllo".into(), "€😀".into(), "plain ascii text".into(), "ab\0cd".into(), "\0".into(), "tail\0".into(), "\u{fffd}x\u{10ffff}".into()] } } }
 
 fn final_state(o: &Obj) -> Vec<i64> { vec![o.state, digest(&o.buf), digest(o.s.as_bytes()), o.cell as i64] }
 
@@ -205,7 +228,7 @@ pub fn run(params: &[i64], ops: &Rows, mon: &mut Mon) -> Rows {
     if dd != dobj { mon.fail(format!("payload destructors {:?} directly, {:?} through the object", dd, dobj)); }
     drop(d);
     let _ = take_drops();
-    if which == 0 { thunk_pass(&mine, mon); }
+    if which == 0 { thunk_pass(&mine, mon); layout_probe(mon); }
     { let d = crate::alloc::domain(0); let fails = EXPECT.with(|e| std::mem::take(&mut *e.borrow_mut())); for f in fails.into_iter().take(3) { mon.fail(f); } crate::alloc::domain(d); }
     for r in res_o { out.push(r); }
     out
